@@ -30,6 +30,7 @@ CONSTANTS
   MaxUserCalls = 0
   InstallKinds = {"jump"}
   Faults = {}
+  SiteReuse = FALSE
   MaxLives = 1
   Gates = {"ok", "abandon"}
   MaxInstalls = 3
